@@ -188,6 +188,7 @@ pub fn spec(id: &str) -> Option<Spec> {
                 b("owning", scen::c19::owning_honest, 6000, 400_000),
                 b("owning_lying", scen::c19::owning_lying, 2000, 150_000),
                 b("input", scen::c19::input_run, 3000, 250_000),
+                b("input_long", scen::c19::input_long, 150, 3_000),
                 b("sound_events", scen::c19::sound_run, 2000, 150_000),
             ],
             extras: vec![],
